@@ -203,6 +203,13 @@ var sigma02 = [][]byte{
 	{' '}, {'\t'}, {'\n'}, {'\r'}, {'\f'}, {0x1B}, {0x7F}, {'%'}, {'*'}, {0x80}, {0xC3, 0xA9}, {0xE2}, {0xFF}, {0xC0},
 }
 
+// long labels: beyond any fixed bound on the formatted result (token-only,
+// needing quotes, non-ASCII)
+var longLabels = []string{
+	strings.Repeat("iso 8859,1; ", 12), strings.Repeat("x-user-defined-", 12), strings.Repeat("a=b/c ", 60),
+	strings.Repeat("caf\xc3\xa9 ", 30), strings.Repeat("q\"uote ", 40), strings.Repeat("l", 126), strings.Repeat("l", 127) + " ", strings.Repeat("x", 2000),
+}
+
 var injectionLabels = []string{
 	"x; charset=y", "x;charset=y", "iso-8859-1; charset=utf-8", "a; b=c", "a;b", "a; q=1; charset=z", "; charset=", "a\"; b=\"c", "a, b", "a/b", "a b c",
 	"x; charset=x", "latin1; CHARSET=utf-8", "a;;b", "a; =b", "a; b=", "utf-8;", " utf-8", "utf-8 ", "x\\; charset=y", "x%3B charset=y", "a\tb; c=d",
@@ -388,6 +395,9 @@ func c02Run(c *core.Ctx) {
 	if c.Mine(1) {
 		for _, l := range injectionLabels {
 			rec([]byte(l), 2)
+		}
+		for _, l := range longLabels {
+			rec([]byte(l), n) // depth n: the label itself only, no further symbols
 		}
 	}
 }
